@@ -33,6 +33,7 @@ RULE = (
     ' Round 6: missing file after the same object failed to load a damaged one.'
     ' Round 7: lone surrogates, NUL, very long and non-ASCII-digit texts per field; odd keys enumerated.'
     ' Round 8: raw texts no dump produces (repeated keys...) and binary container formats.'
+    ' Round 9: missing file while the registry holds text the file encoding cannot encode.'
 )
 ASSUMPTIONS = ["real files in a scratch directory; running as root, so permission faults are represented by the directory case only"]
 SHRINK_STRINGS = ("data",)
